@@ -18,7 +18,7 @@ namespace Nervus.WalFrame
 open Nervus Nervus.WalRec
 
 /-- the tolerant reader configuration: same codec and cap, every tail condition ends the log -/
-def Cfg.ideal (codec : WalRec.Cfg) (maxLen : Nat) : Cfg := ⟨codec, maxLen, true, true, true, true⟩
+def Cfg.ideal (codec : WalRec.Cfg) (maxLen : Nat) : Cfg := ⟨codec, maxLen, true, true, true, true, true⟩
 
 /-- the completely written records at the front of `bs`, and the tail behind them -/
 def completeFrames (codec : WalRec.Cfg) (maxLen : Nat) (bs : Bytes) : List Rec × Bytes :=
